@@ -70,6 +70,7 @@ pub fn fs_create_dir_all(p: &PathBuf, Tracked(w): Tracked<&mut World>) -> (r: Re
     ensures *final(w) == *old(w), !old(w).io_faults ==> r is Ok { unimplemented!() }
 #[verifier::external_body]
 pub fn fs_remove_file(p: &PathBuf, Tracked(w): Tracked<&mut World>) -> (r: Result<(), IoError>)
+    requires old(w).lock_mine.contains(lock_of_parent(p.id@)), // [C17:nothing-in-the-directory-is-removed-without-holding-its-lock]
     ensures r is Ok ==> *final(w) == (World { files: old(w).files.remove(p.id@), ..*old(w) }), r is Err ==> *final(w) == *old(w),
             !old(w).io_faults && old(w).files.dom().contains(p.id@) ==> r is Ok { unimplemented!() }
 // rename(2): atomic -- afterwards the target names the source's content and the source name is gone; never a partial target
